@@ -728,6 +728,7 @@ func (x *Exec) loopHeader(h *ssa.BasicBlock, ci *cfgInfo, pre *State, reach Term
 	if fr == nil || fr.any {
 		post.gen.writable = nil
 	}
+	post.gen.only = x.loopHeapWrites(h, ci)
 	// 3. assume invariants
 	x.autoInvariants(h, ci, post, reach)
 	if lc != nil {
@@ -919,4 +920,177 @@ func fnDisplayName(fn *ssa.Function) string {
 	s = strings.Replace(s, "(github.com/Vedant9500/WTF/internal/", "(", 1)
 	s = strings.TrimPrefix(s, "github.com/")
 	return s
+}
+
+// loopHeapWrites: names of the heaps the loop body may write (nil = unknown, any).
+func (x *Exec) loopHeapWrites(h *ssa.BasicBlock, ci *cfgInfo) map[string]bool {
+	out := map[string]bool{}
+	seen := map[*ssa.Function]bool{}
+	w := x.u.W
+	var scan func(fn *ssa.Function, blocks []*ssa.BasicBlock, depth int) bool
+	scan = func(fn *ssa.Function, blocks []*ssa.BasicBlock, depth int) bool {
+		for _, b := range blocks {
+			for _, in := range b.Instrs {
+				switch in := in.(type) {
+				case *ssa.Store:
+					if t := rootTypeOfAddr(in.Addr, x); t != nil {
+						out[heapName(t)] = true
+					}
+				case *ssa.MapUpdate:
+					md, mv, mc, _, _ := mapHeaps(w, in.Map.Type().Underlying().(*types.Map))
+					out[md], out[mv], out[mc] = true, true, true
+				case *ssa.Alloc:
+					if !x.isCell(in) {
+						et := in.Type().Underlying().(*types.Pointer).Elem()
+						if at, ok := et.Underlying().(*types.Array); ok {
+							out[heapName(at.Elem())] = true
+						} else {
+							out[heapName(et)] = true
+						}
+					}
+				case *ssa.MakeMap:
+					md, mv, mc, _, _ := mapHeaps(w, in.Type().Underlying().(*types.Map))
+					out[md], out[mv], out[mc] = true, true, true
+				case *ssa.Convert:
+					if sl, ok := in.Type().Underlying().(*types.Slice); ok {
+						out[heapName(sl.Elem())] = true
+					}
+				case ssa.CallInstruction:
+					c := in.Common()
+					if c.IsInvoke() {
+						if c.Method.Name() == "Error" {
+							continue
+						}
+						return false
+					}
+					if bi, ok := c.Value.(*ssa.Builtin); ok {
+						switch bi.Name() {
+						case "append", "copy":
+							out[heapName(c.Args[0].Type().Underlying().(*types.Slice).Elem())] = true
+						case "delete":
+							md, mv, mc, _, _ := mapHeaps(w, c.Args[0].Type().Underlying().(*types.Map))
+							out[md], out[mv], out[mc] = true, true, true
+						}
+						continue
+					}
+					callee := c.StaticCallee()
+					if callee == nil {
+						// closure value from a cell: scan all anonymous functions of the enclosing function
+						for _, anon := range x.fn.AnonFuncs {
+							if !seen[anon] {
+								seen[anon] = true
+								if !scan(anon, anon.Blocks, depth+1) {
+									return false
+								}
+							}
+						}
+						continue
+					}
+					full := callee.String()
+					if _, ok := intrinsics[full]; ok {
+						if full == "sort.Slice" || full == "sort.SliceStable" {
+							if mi, ok := c.Args[0].(*ssa.MakeInterface); ok {
+								if sl, ok := mi.X.Type().Underlying().(*types.Slice); ok {
+									out[heapName(sl.Elem())] = true
+									continue
+								}
+							}
+							return false
+						}
+						if strings.Contains(full, "Unmarshal") {
+							return false
+						}
+						continue
+					}
+					if fc := x.u.eng.contractFor(callee); fc != nil && (len(fc.Ensures) > 0 || len(fc.Requires) > 0 || fc.HasMod || fc.Assumed || fc.Pure) && fc.Opts["inline"] == "" {
+						if fc.Pure || (fc.HasMod && len(fc.Modifies) == 0) || (!fc.HasMod && !fc.Assumed) {
+							continue
+						}
+						return false
+					}
+					if isPureExternal(callee) {
+						continue
+					}
+					if x.u.eng.inRepo(callee) && callee.Blocks != nil && depth < maxInlineDepth {
+						if !seen[callee] {
+							seen[callee] = true
+							if !scan(callee, callee.Blocks, depth+1) {
+								return false
+							}
+						}
+						continue
+					}
+					// external without contract: heaps reachable by type from its parameters
+					hs := map[string]bool{}
+					sn := map[string]bool{}
+					ps := callee.Signature.Params()
+					for i := 0; i < ps.Len(); i++ {
+						x.typeClosureHeaps(ps.At(i).Type(), hs, sn, false)
+					}
+					if callee.Signature.Recv() != nil {
+						x.typeClosureHeaps(callee.Signature.Recv().Type(), hs, sn, false)
+					}
+					if hs["*iface*"] && !(callee.Pkg != nil && safeExternalPkg(callee.Pkg.Pkg.Path())) {
+						return false
+					}
+					delete(hs, "*iface*")
+					for k := range hs {
+						out[k] = true
+					}
+				}
+			}
+		}
+		return true
+	}
+	var blocks []*ssa.BasicBlock
+	for b := range ci.loopBody[h] {
+		blocks = append(blocks, b)
+	}
+	if !scan(x.fn, blocks, 0) {
+		return nil
+	}
+	return out
+}
+
+// rootTypeOfAddr: type of the heap object an address expression points into (nil for cells).
+func rootTypeOfAddr(v ssa.Value, x *Exec) types.Type {
+	switch a := v.(type) {
+	case *ssa.Alloc:
+		if x.isCell(a) {
+			return nil
+		}
+		et := a.Type().Underlying().(*types.Pointer).Elem()
+		if at, ok := et.Underlying().(*types.Array); ok {
+			return at.Elem()
+		}
+		return et
+	case *ssa.Global:
+		return nil
+	case *ssa.FreeVar:
+		if l, ok := x.regs[a].(*Loc); ok && l.Kind == "cell" {
+			return nil
+		}
+		return a.Type().Underlying().(*types.Pointer).Elem()
+	case *ssa.FieldAddr:
+		switch a.X.(type) {
+		case *ssa.FieldAddr, *ssa.IndexAddr, *ssa.Alloc, *ssa.Global, *ssa.FreeVar:
+			return rootTypeOfAddr(a.X, x)
+		}
+		return a.X.Type().Underlying().(*types.Pointer).Elem()
+	case *ssa.IndexAddr:
+		switch t := a.X.Type().Underlying().(type) {
+		case *types.Slice:
+			return t.Elem()
+		case *types.Pointer:
+			switch a.X.(type) {
+			case *ssa.FieldAddr, *ssa.IndexAddr, *ssa.Alloc, *ssa.Global, *ssa.FreeVar:
+				return rootTypeOfAddr(a.X, x)
+			}
+			return t.Elem().Underlying().(*types.Array).Elem()
+		}
+	}
+	if pt, ok := v.Type().Underlying().(*types.Pointer); ok {
+		return pt.Elem()
+	}
+	return nil
 }
